@@ -311,11 +311,23 @@ class C02(QueryFamily):
     rule = ("1-3 variables (thorough: up to 4) with explicit domains of 1-4 objects drawn from a shared heap (self-joins, overlapping "
             "domains), conditions mentioning any subset of the variables, every selection order, projections and selected attribute "
             "expressions; rows compared as multisets when every variable is selected, as sets otherwise; non-trivial = some but not all "
-            "assignments qualify; distinct by hash of the case")
+            "assignments qualify; distinct by hash of the case; the THOROUGH tier first runs an exhaustive small scope: every condition with at "
+            "most two and_/or_ connectives over six leaves on two variables, plain and negated, every selection, two datasets (21 672 cases)")
     explanation = ("C02 theorems over the P-model (partition invariant eval_cover); tie = exact row sequences (all variables selected) or "
                    "row sets (projections) with caching disabled; caching enabled and re-evaluation compared with the specification")
 
+    _exh = None
+
+    def budget(self, tier):
+        if tier == 'thorough':
+            if C02._exh is None:
+                C02._exh = gen_query.exhaustive_small_scope()
+            return len(C02._exh) + 6000
+        return QueryFamily.budget(self, tier)
+
     def gen(self, rng, i, tier):
+        if tier == 'thorough' and C02._exh is not None and i < len(C02._exh):
+            return C02._exh[i]             # the exhaustive small scope first (see gen_query.exhaustive_small_scope)
         r = rng.random()
         if r < 0.2:
             return gen_query.gen_case_conj_under_disj(rng, tier)
